@@ -183,15 +183,37 @@ def rule_R3(ctx):
     # Err guards
     guards = {"too-short": False, "too-long": False, "range": False}
     ok_site = None
+    from ..engine import paths as PA
+    per_site = []
     for (blk, j, term, _c) in sites:
         conds = Q.canon_conds(P, T.dom_conds(b, S, blk))
-        is_err = term[0] == "agg" and term[3] == "Err"
+        is_err = (term[0] == "agg" and term[3] == "Err") or (term[0] == "call" and term[1].endswith("::from_residual"))
         is_ok = term[0] == "agg" and term[3] == "Ok"
+        # a guard may sit in a helper that returns Result and is applied with `?` (inlined here): the exit is then shared by the
+        # helper's error returns, and what decided each is on the path - every feasible path to the site is read on its own
+        trails, trunc = PA.enumerate_paths(b, 0, 3000, stop={blk})
+        trails = [tr for tr in trails if tr[-1] == blk]
+        pcs = [[Q._norm_cmp(c) for c in PA.path_conds(P, b, S, tr)] for tr in trails] if trails and not trunc and len(trails) <= 200 else []
         if is_ok:
-            ok_site = (blk, conds)
-        if not is_err or not conds:
+            common = conds
+            if pcs:
+                strip_blk = lambda c: c[:-1]
+                keys = set(map(strip_blk, pcs[0]))
+                for pc in pcs[1:]:
+                    keys &= set(map(strip_blk, pc))
+                common = list(conds) + [c for c in pcs[0] if strip_blk(c) in keys and c not in conds]
+            ok_site = (blk, common)
+        if not is_err:
             continue
-        last = conds[-1]
+        for pc in (pcs or [conds]):
+            if pc:
+                per_site.append(pc)
+    for conds in per_site:
+        # the deciding test: the last comparison on the way (a `?` on an already built Err value decides nothing)
+        decisive = [c for c in conds if not (c[0] == "variant" and T.strip(c[1])[0] == "agg")]
+        if not decisive:
+            continue
+        last = decisive[-1]
         if last[0] == "cmp":
             names = {**_consts_named(last[2]), **_consts_named(last[3])}
             rel = last[1] if last[4] else {"Lt": "Ge", "Gt": "Le", "Le": "Gt", "Ge": "Lt"}.get(last[1], last[1])
@@ -319,19 +341,41 @@ def rule_R4(ctx):
     P = ctx.program
     _flag_table(ctx, P, "from_client", lambda syn, ack: syn and not ack)
     _flag_table(ctx, P, "from_server", lambda syn, ack: syn and ack)
-    b = P.body("huginn_net_tcp::tcp_process::is_packet_from_client")
+    # the role rule is read with the two flag predicates written out at their calls, in terms of the SYN and ACK bits themselves (the
+    # same table whether the predicates are called or their tests stand in is_packet_from_client)
+    b = P.inlined_view("huginn_net_tcp::tcp_process::is_packet_from_client", ("tcp_process::from_client", "tcp_process::from_server"))
     rows = D.decision_rows(P, b)
+    SYN, ACK = 0x02, 0x10
+
+    def _bit_key(c):
+        op, a, bb, pol = c[1], c[2], c[3], c[4]
+        for x, y in ((a, bb), (bb, a)):
+            x, y = T.strip(x), T.strip(y)
+            if x[0] == "binop" and x[1] == "BitAnd" and y[0] == "const" and op in ("Eq", "Ne"):
+                m = T.strip(x[3])
+                if m[0] == "const" and isinstance(m[1], int) and m[1] in (SYN, ACK):
+                    if y[1] == 0:
+                        return (("bit", m[1]), (op == "Ne") == pol)
+                    if y[1] == m[1]:
+                        return (("bit", m[1]), (op == "Eq") == pol)
+        return None
 
     def cond_key(c):
         if c[0] == "bool":
             t = c[1]
-            if t[0] == "call" and t[1].endswith("tcp_process::from_client"):
-                return (("fc",), c[2])
-            if t[0] == "call" and t[1].endswith("tcp_process::from_server"):
-                return (("fs",), c[2])
             if t[0] == "const":
                 return None if t[1] == c[2] else "infeasible"
+            neg = False
+            while t[0] == "unop" and t[1] == "Not":
+                t, neg = t[2], not neg
+            if t[0] == "binop" and t[1] in ("Eq", "Ne"):
+                k = _bit_key(("cmp", t[1], t[2], t[3], c[2] != neg))
+                if k is not None:
+                    return k
         if c[0] == "cmp":
+            k = _bit_key(c)
+            if k is not None:
+                return k
             return _port_key(c)
         return "unknown"
 
@@ -353,19 +397,18 @@ def rule_R4(ctx):
             rows2.append(r)
 
     def spec(a):
-        if a.get(("fc",)) and a.get(("fs",)):
-            return None  # infeasible
-        if a.get(("fc",)):
-            return True
-        if a.get(("fs",)):
-            return False
+        syn, ack = a.get(("bit", SYN), False), a.get(("bit", ACK), False)
+        if syn and not ack:
+            return True          # SYN: from the client
+        if syn and ack:
+            return False         # SYN+ACK: from the server
         return a.get(("high", "src_port"), False) and not a.get(("high", "dst_port"), True)
 
     problems, stats = D.truth_check(rows2, cond_key, lambda t: None, spec)
     atoms = set(stats.get("atoms", []))
     if problems:
         ctx.fail("R4", "is_packet_from_client", "role rule differs: %s under %s" % (problems[0][2], problems[0][1]), ctx.loc(b))
-    elif atoms != {("fc",), ("fs",), ("high", "src_port"), ("high", "dst_port")}:
+    elif atoms != {("bit", SYN), ("bit", ACK), ("high", "src_port"), ("high", "dst_port")}:
         ctx.fail("R4", "is_packet_from_client:atoms", "atoms %s" % sorted(map(str, atoms)), ctx.loc(b))
     else:
         ctx.ok("R4", "is_packet_from_client", "%d valuations agree: handshake flags first, else src>1024 && dst<=1024" % stats["valuations"], ctx.loc(b))
@@ -373,13 +416,19 @@ def rule_R4(ctx):
     c = P.body(UPT + "check_ts_tcp")
     S = T.Slicer(c, P)
     n = 0
-    for (blk, j, term, _x) in TB.return_sites(c, P):
+    seen_sites = set()
+    for (blk, j, term, _x, _sp) in TB.return_alternatives(c, P):
         if not (term[0] == "agg" and term[1] == "tuple"):
             continue
         side = _side_of(P, c, S, blk)
         cli, srv = T.strip(term[4][0]), T.strip(term[4][1])
         some_cli = cli[0] == "agg" and cli[3] == "Some"
         some_srv = srv[0] == "agg" and srv[3] == "Some"
+        # (an estimate carried in a local and returned after the match - `let up = match f {Ok(u) => Some(u), Err(_) => None};
+        # return (up, None)` - is one site with two alternatives)
+        if (blk, some_cli, some_srv) in seen_sites:
+            continue
+        seen_sites.add((blk, some_cli, some_srv))
         if some_cli or some_srv:
             n += 1
             ctx.check((some_cli and side == "client" and not some_srv) or (some_srv and side == "server" and not some_cli), "R4",
